@@ -187,3 +187,7 @@ def empty_set_truth(xs):
     if not s:
         return 0
     return 1
+
+
+def lookup_all(d, xs):
+    return [d[x] for x in xs]
